@@ -20,7 +20,7 @@ from vlib import tolerance, evgen, evmon, evfind
 
 PROPERTY = 'C06'
 LEVEL = 'exploration'
-RULE = ('systematic integer pairs f(A,B), f in mod/floordiv/min/max/mul/add/sub/greater/equal, A,B in 10 operand archetypes with tight ranges; G-ev programs with an integer-heavy profile (FloorDivide/Mod with mixed signs, Minimum/Maximum/Absolute/Sign/Negative chains, Take from '
+RULE = ('systematic integer pairs f(A,B), f in mod/floordiv/min/max/mul/add/sub/greater/equal, A,B in 12 operand archetypes (incl. sign(x)*x in both factor orders) with tight ranges; G-ev programs with an integer-heavy profile (FloorDivide/Mod with mixed signs, Minimum/Maximum/Absolute/Sign/Negative chains, Take from '
         'integer tables, RavelIndex, NormDim, InRange, Range+offset, loop indices, products/sums/powers of ints) plus the general profile; '
         'an observation = one (node object, evaluated value) pair; non-trivial case = >=3 inner nodes; distinct = operator skeleton')
 ASSUMPTIONS = ['metadata is compared with the evaluation of the same node object (self-consistency), not with the shadow',
